@@ -18,7 +18,10 @@ Variable K : Type.
 Variable leb : K -> K -> bool.          (* p <= q on priority values *)
 
 (* what a generated handler / the main program does, in order *)
-Inductive act := AFire (name : nat) (k : K) | AFlush | AStop.
+(* AGen = `return <generator object>`: ends the body of a handler (the rest of the body is dead code);
+   the dispatcher registers the generator as a task (event.waitingHandlers += 1), which no observable
+   of this property depends on, and then falls through to the same `if event.stopped: break` *)
+Inductive act := AFire (name : nat) (k : K) | AFlush | AStop | AGen.
 Record handler := { hid : nat; hprio : K; hbody : list act }.
 Variable hs_of : nat -> list handler.   (* chain(getHandlers(...)) order for an event name *)
 
@@ -60,6 +63,7 @@ Inductive tr :=
 | TInv (e h d : nat)          (* handler h invoked for event e at handler nesting depth d *)
 | TStop (e h : nat)           (* event.stop() in handler h of event e *)
 | TRet (e h : nat)            (* handler returns *)
+| TGen (e h : nat)            (* ... and what it returns is a generator (registered as a task) *)
 | TDone (e : nat)             (* the dispatcher's handler loop for e is over *)
 | TFlushB | TFlushE.          (* flush() called / returns *)
 
@@ -99,6 +103,11 @@ Definition step (s : state) : option state :=
                   stopped := e :: stopped s; stack := FBody ctx acts :: k;
                   trace := trace s ++ [TStop e h]; crashed := crashed s |}
       | None => Some (upd s (FBody ctx acts :: k) [])
+      end
+  | FBody ctx (AGen :: acts) :: k =>
+      match ctx with
+      | Some (e, h) => Some (upd s (FBody ctx [] :: k) [TGen e h])   (* return: the remaining actions never run *)
+      | None => Some (upd s (FBody ctx acts :: k) [])                 (* not generated for the main program *)
       end
   | FBody ctx (AFlush :: acts) :: k =>
       (* dispatchEvents: if _flush_batch == 0: snapshot len(queue), move to the heap *)
@@ -156,12 +165,12 @@ Definition pending_fires (t : list tr) : list item := pf_from [] t.
 
 End Dispatch.
 
-Arguments AFire {K}. Arguments AFlush {K}. Arguments AStop {K}.
+Arguments AFire {K}. Arguments AFlush {K}. Arguments AStop {K}. Arguments AGen {K}.
 Arguments Build_handler {K}. Arguments hid {K}. Arguments hprio {K}. Arguments hbody {K}.
 Arguments Build_item {K}. Arguments ikey {K}. Arguments ictr {K}. Arguments iname {K}.
 Arguments FBody {K}. Arguments FLoop {K}. Arguments FDisp {K}.
 Arguments TFire {K}. Arguments TSnap {K}. Arguments TDisp {K}. Arguments TInv {K}. Arguments TStop {K}.
-Arguments TRet {K}. Arguments TDone {K}. Arguments TFlushB {K}. Arguments TFlushE {K}.
+Arguments TRet {K}. Arguments TGen {K}. Arguments TDone {K}. Arguments TFlushB {K}. Arguments TFlushE {K}.
 Arguments fifo {K}. Arguments heap {K}. Arguments counter {K}. Arguments batch {K}. Arguments stopped {K}.
 Arguments stack {K}. Arguments trace {K}. Arguments crashed {K}.
 Arguments init {K}. Arguments fires {K}. Arguments disps {K}. Arguments invs {K}. Arguments pending_fires {K}.
